@@ -44,7 +44,7 @@ def collapse_probe(res, rng, tier, bad):
     from mudslide.tracer import YAMLTrace, InMemoryTrace
     # collapse on two-state models, both trace back-ends
     tmproot = os.path.join(OUT, "tmp", "C11"); shutil.rmtree(tmproot, ignore_errors=True); os.makedirs(tmproot)
-    for k, backend in enumerate(["memory", "yaml"] * (1 if tier == "quick" else 4)):
+    for k, backend in enumerate(["memory", "yaml", "memory"] if tier == "quick" else ["memory", "yaml"] * 4):      # at least two in-memory traces per process
         mname = ["simple", "dual", "extended"][k % 3]
         tracer = InMemoryTrace() if backend == "memory" else YAMLTrace(base_name="ta", location=tmproot, log_pitch=8)
         # thresholds: no hops except at the two forced-collapse steps, where a hop is attempted in the same step
@@ -52,7 +52,12 @@ def collapse_probe(res, rng, tier, bad):
         integ = ["exp", "rk4"][k % 2]
         tr = mudslide.AugmentedFSSH(M[mname](), [-3.0], [12.0], 0, dt=10.0, max_steps=80, tracer=tracer, zeta_list=zl, seed_sequence=rng.randrange(2 ** 31),
                                     augmented_integration=integ)
-        state = {"collapsed": 0}
+        state = {"collapsed": 0, "recorded": 0}
+        orig_rec = tracer.record_event
+        def rec(et, ed, orig_rec=orig_rec, state=state):
+            if et == "collapse": state["recorded"] += 1
+            return orig_rec(et, ed)
+        tracer.record_event = rec
         # every moment propagation must depend only on the values of its inputs (no hidden shared state):
         # replay each call on a shallow twin holding private copies and compare
         import copy as _cp
@@ -92,6 +97,8 @@ def collapse_probe(res, rng, tier, bad):
             evs = yaml.safe_load(open(os.path.join(tmproot, log.event_log))) or []
             nev = sum(1 for e in evs if "removed" in e)
         res.count("collapse/" + backend, state["collapsed"])
+        if nev != state["recorded"]:
+            bad.append(dict(failed="the trace store holds exactly the collapse events recorded on it by its own trajectory (%d recorded, %d held, %s back-end, trace %d created in this process)" % (state["recorded"], nev, backend, k), case=dict(model=mname)))
         if nev < state["collapsed"] or state["collapsed"] == 0:
             bad.append(dict(failed="every collapse is recorded as an event in the trace store in use (%d collapses forced, %d events, %s)" % (state["collapsed"], nev, backend), case=dict(model=mname)))
     shutil.rmtree(tmproot, ignore_errors=True)
@@ -166,6 +173,41 @@ def run(tier, seed):
         res.count("integrator-agreement-probe")
         if not (diffs[2] < 0.6 * diffs[0] + 1e-13):
             bad.append(dict(failed="the two moment integrators agree as the time step goes to zero (differences %r for dt 0.4, 0.2, 0.1)" % diffs, case=dict(n=n)))
+    # ---- real A-FSSH runs on the built-in models (1-D, 2-D and 5-D; 2, 3 and 8 states), both moment integrators: Hermitian at every step
+    import sys
+    S_ = sys.modules['mudslide.models.scattering_models']
+    REAL = [("simple", lambda: M["simple"](), [-2.0], [12.0], 5.0), ("subotnik2d", lambda: S_.Subotnik2D(), [-3.0, 0.4], [14.0, 1.5], 4.0),
+            ("vibronic", lambda: M["vibronic"](), [0.1, -0.2, 0.15, 0.05, 0.4], [0.5, -0.3, 0.2, 0.1, 2.0], 1.0), ("super", lambda: M["super"](), [-4.0], [9.0], 5.0),
+            ("modelw", lambda: M["modelw"](), [-1.0], [20.0], 1.0)]
+    for name, mk_, x0, p0, dtv in (REAL if tier != "quick" else REAL[:4]):
+        for integ in ("exp", "rk4"):
+            tr = mudslide.AugmentedFSSH(mk_(), x0, p0, 0, dt=dtv, max_steps=40 if tier == "quick" else 150, zeta_list=[2.0] * 200, augmented_integration=integ,
+                                        electronic_integration="exp" if integ == "exp" else "linear-rk4", seed_sequence=5)
+            worst = [0.0, 0.0]; orig_adv = tr.advance_position
+            def adv(le, te, tr=tr, worst=worst, orig_adv=orig_adv):
+                sc_ = max(1e-300, float(np.max(np.abs(tr.delR))), float(np.max(np.abs(tr.delP))))
+                worst[0] = max(worst[0], max(herm_defect(tr.delR), herm_defect(tr.delP)) / sc_); worst[1] = max(worst[1], sc_)
+                orig_adv(le, te)
+            tr.advance_position = adv
+            try:
+                tr.simulate()
+            except AssertionError:
+                pass          # the collapse routine is written for two states (asserted by the code)
+            res.count("real-run-hermiticity/%s/%s" % (name, integ))
+            res.case(("realrun", name, integ), worst[1] > 1e-300, dict(model=name, integrator=integ, max_moment=worst[1], max_relative_defect=worst[0]))
+            if worst[0] > 1e-9:
+                bad.append(dict(failed="moment matrices remain Hermitian in the state indices at all times (A-FSSH on %s, %s: relative anti-Hermitian part %.2e)" % (name, integ, worst[0]), case=dict(model=name, integrator=integ, x0=x0, p0=p0, dt=dtv)))
+    # ---- through hop_to_it: the re-centring happens at accepted hops only (frustrated attempts leave the moments alone)
+    import p01
+    nacc = nrej = 0
+    for k in range(40 if tier == "quick" else 600):
+        c, o = p01.drive_hop("afssh", p01.gen_hop(rng, k), rng)
+        if o["accepted"]: nacc += 1
+        else: nrej += 1
+        f = p01.hop_oracle(c, o)
+        if f and "moments" in f:
+            bad.append(dict(failed=f, case=dict(mass=c["mass"], v=c["v"], dir=c["dir"], energies=c["en"], state=c["state"], target=c["target"])))
+    res.count("hop_to_it/accepted", nacc); res.count("hop_to_it/frustrated", nrej)
     collapse_probe(res, rng, tier, bad)
     failing, errors = run_case_check("C11", PRELUDE, "case11", "chk11", cases, per_file=12, timeout=1500)
     for e in errors:
